@@ -107,11 +107,35 @@ def qr_blocks(ctx):
                 fam, U = "haar", np.linalg.qr(ctx.rng.normal(size=(N_, N_)) + 1j * ctx.rng.normal(size=(N_, N_)))[0]
             case0 = {"decomposition": "qr", "n": n, "family": fam,
                      "matrix": [[[float(z.real).hex(), float(z.imag).hex()] for z in r] for r in np.asarray(U, complex)]}
+            seqlog = []
+
+            def sfactory(orig):
+                def swrapped(gate, n_qubits):
+                    g0 = np.array(gate, dtype=complex, copy=True)
+                    out = orig(gate, n_qubits)
+                    seqlog.append((g0, np.array(out, dtype=complex, copy=True)))
+                    return out
+                return swrapped
+            import qclib.unitary as QU
             try:
-                c = unitary(U, "qr")
+                with monitors.patched(QU, "_build_qr_gate_sequence", sfactory):
+                    c = unitary(U, "qr")
             except Exception as ex:
                 ctx.note(f"unitary(qr) raised {type(ex).__name__} on {fam} n={n}")
                 continue
+            # premises of C02_qr_telescoping on the sequence the code built: [G, R_k^-1, .., R_1^-1] with every recorded inverse a
+            # left inverse of its factor (R_i = conjugate transpose) and G the matrix after eliminating with R_1 .. R_k in turn
+            for g0, sq in seqlog:
+                ctx.monitor("qr_givens_contract")
+                invs = list(sq[1:])[::-1]                      # R_1^-1 .. R_k^-1
+                acc, worst = g0, 0.0
+                for Ri_inv in invs:
+                    Ri = Ri_inv.conj().T
+                    worst = max(worst, float(np.abs(Ri_inv @ Ri - np.eye(len(g0))).max()))
+                    acc = Ri @ acc
+                if worst > 1e-12 or float(np.abs(acc - sq[0]).max()) > 1e-10:
+                    ctx.mismatch(f"C02 QR contract: the Givens sequence violates the premises of C02_qr_telescoping (left inverses off by {worst:.1e}, "
+                                 f"remainder off by {np.abs(acc - sq[0]).max():.1e})", case0)
             ctx.count("corr:qr:" + fam, key=("qrb", n, np.asarray(U).tobytes()[:96]), nontrivial=True,
                       sample={"n": n, "family": fam, "instructions": len(c.data)} if n == 3 and rep == 0 else None)
             total = np.eye(2 ** n, dtype=complex)
@@ -222,7 +246,7 @@ def replay(ctx, case):
 
 
 MANIFEST = dict(
-    text="Proof (MODULAR/PARTIAL): the demultiplexing identity U1(+)U2 = (V(+)V)(D(+)D^-1)(W(+)W) under the premises V unitary, U1 U2^-1 = V D^2 V^-1, W = D V^-1 U2 (C02_demux, any field, any dimension); the multiplexed rotations used by the synthesis are C13's theorems. Tie: on every _compute_gates and scipy cossin call made while synthesising structured (identity, diagonal, permutation, tensor, block, orthogonal, Hadamard, -I) and Haar unitaries the premises are checked numerically at 1e-8. QR scheme: every block of the circuit (Gray-code moves = fully controlled X gates with zero-controls, the fully controlled 2x2 gate, the moves undone) is the two-level operator on its two basis states for every register width, every path accepted by the checker path_ok and every matrix (C02_qr_block; C02_qr_move: a move is a transposition of basis states), and the path the code takes - lowest differing qubit first - is accepted for every pair of basis states (C02_qr_gray_path), so the block generated from (n, col, row) alone is the two-level operator (C02_qr_block_all) and the circuit generated from the list of pairs is the composition of these operators (C02_qr_circuit); tie: each block of the circuits built for dense unitaries (n = 2..4/5) is compared inside Coq with TwoLevel.qr_block n col row, and the product of the resulting two-level matrices is compared with the input. The recursive wiring, A.1/A.2 and isometry mode are evaluated: operator vs matrix for every option, n<=4/6.",
+    text="Proof (MODULAR/PARTIAL): the demultiplexing identity U1(+)U2 = (V(+)V)(D(+)D^-1)(W(+)W) under the premises V unitary, U1 U2^-1 = V D^2 V^-1, W = D V^-1 U2 (C02_demux, any field, any dimension); the multiplexed rotations used by the synthesis are C13's theorems. Tie: on every _compute_gates and scipy cossin call made while synthesising structured (identity, diagonal, permutation, tensor, block, orthogonal, Hadamard, -I) and Haar unitaries the premises are checked numerically at 1e-8. QR scheme: every block of the circuit (Gray-code moves = fully controlled X gates with zero-controls, the fully controlled 2x2 gate, the moves undone) is the two-level operator on its two basis states for every register width, every path accepted by the checker path_ok and every matrix (C02_qr_block; C02_qr_move: a move is a transposition of basis states), and the path the code takes - lowest differing qubit first - is accepted for every pair of basis states (C02_qr_gray_path), so the block generated from (n, col, row) alone is the two-level operator (C02_qr_block_all) and the circuit generated from the list of pairs is the composition of these operators (C02_qr_circuit); the Givens sequence gives the matrix back when every recorded inverse is a left inverse of its factor (C02_qr_telescoping, any ring and dimension; premises checked on every sequence the code builds; C02_qr_givens_pair is the 2x2 zeroing core); tie: each block of the circuits built for dense unitaries (n = 2..4/5) is compared inside Coq with TwoLevel.qr_block n col row, and the product of the resulting two-level matrices is compared with the input. The recursive wiring, A.1/A.2 and isometry mode are evaluated: operator vs matrix for every option, n<=4/6.",
     note="Modelled, not verified: scipy cossin / numpy eig, Qiskit's _apply_a2, UCRZGate, UCGate, UnitaryGate synthesis; wiring of build_unitary is evaluated only.",
     technique='Coq/mathcomp proof (block matrices over any field) + Coq proof of the QR blocks (conjugated two-level operators, checker-validated paths) + gate-list correspondence (vm_compute) + runtime contract monitors + numpy operator comparison',
     design_ref='DESIGN.md section 4, C02')
